@@ -236,9 +236,6 @@ func (s *State) IsFromWord() bool {
 // Replaces the expensive checkWordBoundaryMatch (30% CPU) which created Builder
 // and resolved word boundaries per byte.
 func (s *State) checkWordBoundaryFast(b byte) bool {
-	if s.isMatch {
-		return false // Already a match — let normal processing handle it
-	}
 	isBoundary := s.isFromWord != isWordByte(b)
 	if isBoundary {
 		return s.matchAtWordBoundary
